@@ -139,8 +139,9 @@ def write_coqproject():
     return False
 
 
-def coq_make(jobs=16, clean=False, timeout=3000):
-    """Full .vo build of the whole development (incremental). Returns (ok, log)."""
+def coq_make(jobs=16, clean=False, timeout=3000, target=None):
+    """Full .vo build (never -vos) of the whole development, or of one target and everything it depends on
+    (incremental). Returns (ok, log)."""
     def go():
         changed = write_coqproject()
         mk = os.path.join(COQ, 'Makefile.coq')
@@ -150,7 +151,10 @@ def coq_make(jobs=16, clean=False, timeout=3000):
         if clean:
             subprocess.run(['make', '-f', 'Makefile.coq', 'clean'], cwd=COQ, stdout=subprocess.DEVNULL,
                            stderr=subprocess.DEVNULL)
-        r = subprocess.run(['timeout', str(timeout), 'make', '-f', 'Makefile.coq', f'-j{jobs}'], cwd=COQ,
+        cmd = ['timeout', str(timeout), 'make', '-f', 'Makefile.coq', f'-j{jobs}']
+        if target:
+            cmd.append(target)
+        r = subprocess.run(cmd, cwd=COQ,
                            stdout=subprocess.PIPE, stderr=subprocess.STDOUT, text=True)
         return r.returncode == 0, r.stdout[-4000:]
     return _locked(go)
@@ -201,6 +205,15 @@ def check_props(pid, timeout=900):
     res['ok'] = allok
     res['style_ok'] = style_ok
     return res
+
+
+def coqchk(pid, timeout=1800):
+    """independent re-check of Props/<pid>.vo and its closure; returns (ok, axioms_text)"""
+    def go():
+        return subprocess.run(['timeout', str(timeout), 'coqchk', '-silent', '-o', '-Q', '.', 'LV', f'LV.Props.{pid}'],
+                              cwd=COQ, stdout=subprocess.PIPE, stderr=subprocess.STDOUT, text=True)
+    r = _locked(go)
+    return r.returncode == 0, r.stdout[-3000:]
 
 
 # ----------------------------------------------------------------------------------------------
